@@ -274,9 +274,12 @@ func checkC11(w *World, r *Report) {
 	r.Check(okGraceful, "graceful.no-cancel", sname+": no cancel outside the forced branch", w.Pos(sd.Pos()), "the internal cancel is reachable only on the ctx.Done() branch", "a graceful shutdown cancels running jobs: "+gracefulDetail)
 	// the poll loop leaves only when no pipeline is running
 	okPoll := false
-	for _, f := range w.ifFacts(sd) {
-		if f.Atom.Op == "true" && strings.Contains(f.Atom.L, ro.pipeRunningName()+"(recv,rangekey(recv.jobsByPipeline))") {
-			okPoll = true
+	// (on the path streams: the test may sit in a helper of the shutdown function)
+	for _, p := range res.Paths {
+		for _, l := range p.Lits {
+			if l.Atom.Op == "true" && strings.Contains(l.Atom.L, ro.pipeRunningName()+"(recv,rangekey(recv.jobsByPipeline))") {
+				okPoll = true
+			}
 		}
 	}
 	r.Check(okPoll, "graceful.polls-running", sname+": waits while any pipeline is running", w.Pos(sd.Pos()), "the poll loop evaluates the pipeline-running predicate for every pipeline with jobs", "shutdown does not poll the running predicate of every pipeline")
